@@ -245,6 +245,16 @@ def spawn_chain(repo, canon):
     return True, ''
 
 
+def _reaching_def(path, upto, name):
+    """(event index, RHS) of the last plain assignment to local `name` before event `upto`"""
+    for k in range(upto - 1, -1, -1):
+        e = path.events[k]
+        if e.kind == 'stmt' and isinstance(e.node, ast.Assign) and any(
+                isinstance(t, ast.Name) and t.id == name for t in e.node.targets):
+            return k, e.node.value
+    return None, None
+
+
 def consume_once(repo, res, canon, rule):
     """A collation that can run more than once over the same step must clear
     what it read."""
@@ -271,28 +281,30 @@ def consume_once(repo, res, canon, rule):
                     continue
                 if not any(canon.c(t, fr) == 'Monitor.events' for t in e.node.targets):
                     continue
-                flows = False
+                # where the content of L is read: in the copying statement itself, or earlier
+                # through a local that holds (a reference to) the list
+                read_at = None
                 for x in ast.walk(e.node.value):
                     if isinstance(x, (ast.Attribute, ast.Subscript)) and canon.c(x, fr) == L:
-                        flows = True
+                        read_at = i
                     elif isinstance(x, ast.Name):
                         seen_names = set()
-                        work = [x.id]
-                        while work and not flows:
-                            nm = work.pop()
+                        work = [(x.id, i)]
+                        while work and read_at is None:
+                            nm, at = work.pop()
                             if nm in seen_names:
                                 continue
                             seen_names.add(nm)
-                            rv = reaching_value(p, i, nm)
+                            k, rv = _reaching_def(p, at, nm)
                             if rv is None:
                                 continue
                             for y in ast.walk(rv):
                                 if isinstance(y, (ast.Attribute, ast.Subscript)) and canon.c(y, fr) == L:
-                                    flows = True
+                                    read_at = k
                                 elif isinstance(y, ast.Name):
-                                    work.append(y.id)
-                if flows:
-                    copies.append(i)
+                                    work.append((y.id, k))
+                if read_at is not None:
+                    copies.append(read_at)
             if not copies:
                 continue
             n_copy += 1
